@@ -28,7 +28,7 @@ ASSUMPTIONS = [
     "bounded progress: a run in which no task starts, finishes or is delivered for 45 s is reported as non-termination; a run killed by the outer watchdog while still progressing is inconclusive",
     "the explicit-state model clause of the quantifier is NOT decided (different technique); schedule diversity from the grid and delay injection stands in, distinct interleavings are reported",
 ]
-FLOORS = {"quick": {"runs": 40, "delivered": 300, "retirements": 5, "failed_tasks_delivered": 5, "distinct:interleavings": 15, "network_error_tasks": 14, "retirement_waves_held_back": 1, "runs_with_tuple_ids": 2, "runs_after_an_earlier_pool": 2},
+FLOORS = {"quick": {"runs": 40, "delivered": 300, "retirements": 5, "failed_tasks_delivered": 5, "distinct:interleavings": 15, "network_error_tasks": 14, "retirement_waves_held_back": 1, "runs_with_tuple_ids": 2, "runs_after_an_earlier_pool": 2, "runs_with_message_less_failures": 3, "aborted_runs_with_results_still_being_queued": 2},
           "thorough": {"runs": 500, "delivered": 3000, "retirements": 50, "failed_tasks_delivered": 50, "injected_delays": 500,
                        "distinct:interleavings": 150}}
 NPROC = {"quick": 8, "thorough": 16}
@@ -76,6 +76,12 @@ def grid(tier, seed):
     # two pools in one process: the first one's callbacks (which know only its own ids) must not run for the second one
     base += [dict(n=8, pool=2, max_tasks=25, prelude=4), dict(n=6, pool=1, max_tasks=25, prelude=3, prelude_pool=1, api="run"),
              dict(n=8, pool=3, max_tasks=2, prelude=4, parent_cb=True, raising=[102])]
+    # a task failure that ends the run (tolerate_fails off) while the other workers still queue large results: the run must end, raising that failure
+    base += [dict(n=16, pool=3, max_tasks=25, raising=[101], tolerate_fails=False, big_payload=200000, task_ms=5),
+             dict(n=12, pool=4, max_tasks=25, raising=[100], tolerate_fails=False, big_payload=300000, task_ms=20, api="run")]
+    # failures without a message
+    base += [dict(n=10, pool=3, max_tasks=25, raising_empty=[103, 108], raising=[105]), dict(n=8, pool=1, max_tasks=25, raising_empty=[103]),
+             dict(n=8, pool=2, max_tasks=2, raising_empty=[101], tolerate_fails=False)]
     runs += base
     nrand = 40 if tier == "quick" else 1500
     for i in range(nrand):
@@ -197,7 +203,11 @@ def judge(spec, res, acc):
     delivered = [e for e in ev if e["k"] == "deliver"]
     dones = [e for e in ev if e["k"] == "done"]
     net_fail = set(spec.get("net_always", [])) | set(spec.get("net_wrapped", []))
-    raising = set(spec.get("raising", [])) | net_fail
+    raising = set(spec.get("raising", [])) | set(spec.get("raising_empty", [])) | net_fail
+    if spec.get("raising_empty"):
+        acc.count("runs_with_message_less_failures")
+    if not spec.get("tolerate_fails", True) and spec.get("big_payload") and raising:
+        acc.count("aborted_runs_with_results_still_being_queued")
     tolerate = spec.get("tolerate_fails", True)
     acc.count("runs")
     acc.count("network_error_tasks", len(net_fail) + len(spec.get("net_flaky", {})) + len(spec.get("net_flaky_wrapped", {})))
